@@ -363,3 +363,78 @@ def c20_scope(tier):
     P.append(("bundle-out", 'Bundle b = { ("signal-A", 20), ("signal-B", 5) };\nBundle r = b * 2;\nSignal s = b["signal-A"] + 1;\n'))
     P.append(("consumed-by-entity", X + 'Signal c = x > 3;\nEntity l = place("small-lamp", 0, 0);\nl.enable = c;\nSignal r = y + 1;\n'))
     return P
+
+
+# ---------------------------------------------------------------------------------------------
+# memories
+def c03_scope(tier):
+    """(id, source, pools) — pools: input name -> values a history may switch it to."""
+    V = 'Signal v = ("signal-A", 5);\n'
+    C = 'Signal c = ("signal-B", 0);\n'
+    G = 'Signal g = ("signal-C", 1);\n'
+    M = 'Memory m: "signal-M";\n'
+    vp, cp = [5, 9, -3, 0], [0, 1, 0, 2]
+    P = []
+    P.append(("cmp-enable", V + C + M + 'm.write(v | "signal-M", when=c > 0);\nSignal out = m.read();\n', {"v": vp, "c": cp}))
+    P.append(("named-cmp-enable", V + C + M + 'Signal en = c > 0;\nm.write(v | "signal-M", when=en);\nSignal out = m.read();\n', {"v": vp, "c": cp}))
+    P.append(("compound-enable", V + C + G + M + 'm.write(v | "signal-M", when=(c > 0) && (g > 0));\nSignal out = m.read();\n', {"v": vp, "c": [0, 1], "g": [0, 1]}))
+    P.append(("expr-data", V + C + M + 'm.write((v * 2 + 1) | "signal-M", when=c > 0);\nSignal out = m.read() + 0;\n', {"v": vp, "c": cp}))
+    P.append(("untyped-cell", V + C + 'Memory m;\nm.write(v, when=c > 0);\nSignal out = m.read();\n', {"v": vp, "c": cp}))
+    P.append(("two-readers", V + C + M + 'm.write(v | "signal-M", when=c > 0);\nSignal out = m.read();\nSignal dbl = m.read() * 2;\n'
+              'Entity l = place("small-lamp", 0, 0);\nl.enable = m.read() > 6;\n', {"v": vp, "c": cp}))
+    P.append(("two-cells", V + C + G + M + 'Memory n: "signal-N";\nm.write(v | "signal-M", when=c > 0);\nn.write(v | "signal-N", when=g > 1);\n'
+              'Signal out = m.read();\nSignal out2 = n.read();\n', {"v": [5, 9], "c": [0, 1], "g": [1, 2]}))
+    P.append(("shared-enable-var", V + C + G + M + 'Memory n: "signal-N";\nSignal en = c > 0;\nm.write(v | "signal-M", when=en);\n'
+              'n.write(v | "signal-N", when=en && (g > 0));\nSignal out = m.read();\nSignal out2 = n.read();\n', {"v": [5, 9], "c": [0, 1], "g": [0, 1]}))
+    P.append(("dup-comparison-earlier", V + C + M + 'Signal armed = c > 0;\nm.write(v | "signal-M", when=c > 0);\nSignal out = m.read();\nSignal a2 = armed + 0;\n', {"v": vp, "c": cp}))
+    P.append(("enable-used-in-data", V + C + M + 'Signal en = c > 0;\nm.write((v + en) | "signal-M", when=en);\nSignal out = m.read();\n', {"v": vp, "c": cp}))
+    return P
+
+
+def c04_scope(tier):
+    """(id, source, cell name, reader name, input valuations, warmup)"""
+    M = 'Memory m: "signal-M";\n'
+    P = []
+    P.append(("counter", M + "m.write(m.read() + 1);\nSignal out = m.read();\n", [{}], 0))
+    P.append(("counter-mod", M + "m.write((m.read() + 3) % 7);\nSignal out = m.read();\n", [{}], 0))
+    P.append(("accumulate-input", 'Signal x = ("signal-X", 4);\n' + M + "m.write(m.read() + x);\nSignal out = m.read();\n",
+              [{"x": 4}, {"x": -3}, {"x": 0}, {"x": 2147483647}], 2))
+    P.append(("chain3", M + "m.write(((m.read() + 5) * 3) % 11);\nSignal out = m.read();\n", [{}], 0))
+    P.append(("lfsr-mix", M + "m.write(((m.read() << 1) XOR (m.read() >> 3)) + 1);\nSignal out = m.read();\n", [{}], 0))
+    P.append(("two-readers", M + "m.write((m.read() + 1) % 10);\nSignal out = m.read();\nSignal dbl = m.read() * 2;\n"
+              'Entity l = place("small-lamp", 0, 0);\nl.enable = m.read() > 4;\n', [{}], 0))
+    P.append(("reader-before-write", M + "Signal dbl = m.read() * 2;\nm.write(m.read() + 2);\nSignal out = m.read();\n", [{}], 0))
+    P.append(("reader-adds-same-type", 'Signal k = ("signal-K", 2);\n' + M + 'Signal off = (k * 2) | "signal-M";\nm.write((m.read() + 3) % 7);\n'
+              "Signal out = m.read();\nSignal shown = m.read() + off;\n", [{"k": 2}], 0))
+    P.append(("untyped", "Memory m;\nm.write(m.read() + 1);\nSignal out = m.read();\n", [{}], 0))
+    P.append(("times-const", 'Signal x = ("signal-X", 3);\n' + M + "m.write((m.read() * 2 + x) % 1000);\nSignal out = m.read();\n", [{"x": 3}, {"x": 7}], 2))
+    return P
+
+
+def c05_scope(tier):
+    """(id, source, pools)"""
+    M = 'Memory m: "signal-M";\n'
+    S = 'Signal s = ("signal-S", 0);\n'
+    R = 'Signal r = ("signal-R", 0);\n'
+    X = 'Signal x = ("signal-X", 50);\n'
+    sr = {"s": [0, 1], "r": [0, 1]}
+    xb = {"x": [10, 19, 20, 50, 79, 80, 90]}
+    P = []
+    for order, args in (("sr", "set=s, reset=r"), ("rs", "reset=r, set=s")):
+        P.append((f"bool-{order}-v1", S + R + M + f"m.write(1, {args});\nSignal out = m.read();\n", sr))
+        P.append((f"bool-{order}-v7", S + R + M + f"m.write(7, {args});\nSignal out = m.read();\n", sr))
+        P.append((f"bool-{order}-vsig", S + R + 'Signal v = ("signal-V", 9);\n' + M + f'm.write(v | "signal-M", {args});\nSignal out = m.read();\n',
+                  {"s": [0, 1], "r": [0, 1], "v": [9, 4]}))
+    for order, args in (("sr", "set=x < 20, reset=x >= 80"), ("rs", "reset=x >= 80, set=x < 20")):
+        P.append((f"hyst-{order}", X + M + f"m.write(1, {args});\nSignal out = m.read();\n", xb))
+    for order, args in (("sr", "set=x < 60, reset=x >= 40"), ("rs", "reset=x >= 40, set=x < 60")):
+        P.append((f"overlap-{order}", X + M + f"m.write(1, {args});\nSignal out = m.read();\n", {"x": [10, 39, 40, 50, 59, 60, 90]}))
+    P.append(("const-left-sr", X + M + "m.write(1, set=20 > x, reset=80 <= x);\nSignal out = m.read();\n", xb))
+    P.append(("two-inputs-sr", X + 'Signal y = ("signal-Y", 0);\n' + M + "m.write(1, set=x < 20, reset=y > 5);\nSignal out = m.read();\n",
+              {"x": [10, 50], "y": [0, 9]}))
+    P.append(("same-type-sr", 'Signal a = ("signal-A", 0);\nSignal b = ("signal-A", 0);\n' + M + "m.write(7, set=a, reset=b);\nSignal out = m.read();\n",
+              {"a": [0, 1], "b": [0, 1]}) if False else
+             ("same-type-cmp-sr", 'Signal a = ("signal-A", 0);\nSignal b = ("signal-B", 0);\n' + M + "Signal s1 = (a > 0) | \"signal-Q\";\nSignal r1 = (b > 0) | \"signal-Q\";\n"
+              "m.write(7, set=s1, reset=r1);\nSignal out = m.read();\n", {"a": [0, 1], "b": [0, 1]}))
+    P.append(("lamp", X + M + 'm.write(1, set=x < 20, reset=x >= 80);\nEntity l = place("small-lamp", 0, 0);\nl.enable = m.read() > 0;\nSignal out = m.read();\n', xb))
+    return P
